@@ -1,6 +1,7 @@
 (** Rollout.v — executable model of the rollout split (C10).
     Anchors: internal/server/rollout_controller.go, service.go
-    (loadBalancerForRequest, SetRolloutSplit, StopRollout, UnmarshalJSON),
+    (loadBalancerForRequest, SetRolloutSplit, StopRollout, UpdateLoadBalancer,
+    CopyWithOptions, MarshalJSON/UnmarshalJSON),
     net/http cookie.go (readCookies, parseCookieValue) and request.go
     (Request.Cookie) of Go 1.24.2, hash/fnv (New32a).
     Definitions only; proofs are in proofs/RolloutFacts.v. *)
@@ -205,10 +206,8 @@ Definition pick (has_rollout : bool) (ctrl : option split) (lines : list str) : 
     Deployments are identified by a number chosen by the history; a
     deployment always succeeds here (failing deploys are C06's subject). *)
 
-(** The rollout slot: nil, a balancer with no targets (only a restart
-    produces it: UnmarshalJSON always builds a rollout balancer), or a
-    balancer of deployment [id]. *)
-Inductive slot := NoLB | EmptyLB | LB (id : nat).
+(** The rollout slot: nil or the balancer of deployment [id]. *)
+Inductive slot := NoLB | LB (id : nat).
 
 Record svc := mkSvc { sv_active : nat; sv_rollout : slot; sv_ctrl : option split }.
 
@@ -223,8 +222,7 @@ Inductive hcmd :=
 Inductive hobs :=
 | OOk
 | OErrNoRollout                         (* ErrorRolloutTargetNotSet *)
-| OServed (id : nat)
-| OUnavailable.                         (* 503: the chosen balancer has no target *)
+| OServed (id : nat).
 
 Definition init_svc (id : nat) : svc := mkSvc id NoLB None.
 
@@ -239,14 +237,14 @@ Definition hstep (s : svc) (c : hcmd) : svc * hobs :=
     if has_rollout_slot s then (mkSvc (sv_active s) (sv_rollout s) (Some (mkSplit pct allow)), OOk)
     else (s, OErrNoRollout)
   | HStop => (mkSvc (sv_active s) (sv_rollout s) None, OOk)
-  | HRestart =>
-    (mkSvc (sv_active s) (match sv_rollout s with NoLB => EmptyLB | x => x end) (sv_ctrl s), OOk)
+  | HRestart => (s, OOk)     (* the snapshot holds targets, rollout targets (if any) and the controller;
+                                UnmarshalJSON builds a rollout balancer only when rollout targets were saved *)
   | HRequest lines =>
     (s, match pick (has_rollout_slot s) (sv_ctrl s) lines with
         | Active => OServed (sv_active s)
         | Rollout => match sv_rollout s with
                      | LB id => OServed id
-                     | _ => OUnavailable
+                     | NoLB => OServed (sv_active s)     (* unreachable: [pick false] is [Active] *)
                      end
         end)
   end.
